@@ -7,7 +7,7 @@ vars == <<pc, key, out>>
 
 G == IF Tier = "quick" THEN 3 ELSE 4
 Span == 8
-Families == {"s22", "s23", "kb"} \cup (IF Tier = "quick" THEN {} ELSE {"s33", "mat22"})
+Families == {"s22", "s23", "kb", "o21", "o32"} \cup (IF Tier = "quick" THEN {} ELSE {"s33", "mat22", "o32kb"})
 KPosSV(d) == {k \in KVariants(d) : k[1] \in {"none", "scalar", "vector"}}
 SystemsOf(f) ==
   CASE f = "s22" -> SysBoundsOf(A22)
@@ -15,20 +15,26 @@ SystemsOf(f) ==
     [] f = "s33" -> {Plain(A33, 4, Vec(3, 0), Vec(3, 4))}
     [] f = "mat22" -> SysMatrix(2, 2, 0..2)
     [] f = "kb" -> SysKBOf(A22, Vec(2, 0), Vec(2, 4), KPosSV(2))
+    [] f = "o21" -> SysBoundsOf(A21) \cup SysKBOf(A21, Vec(1, 1), Vec(1, 7), KPosSV(2))
+    [] f = "o32" -> SysBoundsOf(A32)
+    [] f = "o32kb" -> SysKBOf(A32, Vec(2, 1), <<6, 5>>, KPosSV(3))
 
 (* targets with all coordinates >= one lattice unit above zero (Poisson needs b > 0) *)
 PosTargets(s) == {b \in Targets(s, G, Span) : \A i \in 1..Len(b) : b[i] >= 1}
 
+WeightsOf(d) == {Vec(d, 1), [i \in 1..d |-> IF i = 1 THEN 2 ELSE 1]}
 Init == pc = "init" /\ key = "" /\ out = <<>>
 Level1 == pc = "init" /\ \E f \in Families : key' = f /\ pc' = "fam" /\ out' = out
 Level2 == /\ pc = "fam"
           /\ \E s \in SystemsOf(key) : out' = [fam |-> key, sys |-> s]
           /\ pc' = "sys" /\ key' = key
 Level3 == /\ pc = "sys"
-          /\ out' = [fam |-> out.fam, sys |-> out.sys, recs |-> {ModelRecord(out.sys, b) : b \in PosTargets(out.sys)}]
+          /\ out' = [fam |-> out.fam, sys |-> out.sys, recs |-> {ModelRecord(out.sys, b) : b \in PosTargets(out.sys)},
+                      back |-> BackRecords(out.sys, WeightsOf(Len(out.sys.A)))]
           /\ pc' = "done" /\ key' = key
 Next == Level1 \/ Level2 \/ Level3
 Spec == Init /\ [][Next]_vars
 CertificatesConsistent == pc = "done" => \A r \in out.recs : r.ok
+BackCertified == pc = "done" => \A r \in out.back : BackOK(out.sys, r)
 NonVacuous == pc = "done" => (\E r \in out.recs : r.cls = "interior") /\ (\E r \in out.recs : r.ncert > 0)
 =============================================================================
